@@ -130,6 +130,38 @@ class SqlPlan(Plan):
         return progs, False, rule
 
 
+class MultiPlan(Plan):
+    nontrivial_rule = "the tree spans at least two operation kinds and processing invoked at least one hook"
+    trusted_base = SqlPlan.trusted_base + [
+        "harness/sqlproc.py: the real Processor subclass used on the implementation side (hooks evaluate the "
+        "source in its own engine only and wrap the rows as a payload of the destination engine)",
+    ]
+    assumptions = SqlPlan.assumptions
+
+    def __init__(self, quick=600, thorough=15000, gen_name="prog_multi"):
+        self.quick, self.thorough, self.gen_name = quick, thorough, gen_name
+
+    def programs(self, tier, seed):
+        n = _n(tier, self.quick, self.thorough, self.thorough // 4)
+        f = getattr(gen, self.gen_name)
+        progs = [f(seed * 1000003 + i, 3 + (i % 8)).text() for i in range(n)]
+        rule = (f"{n} random programs from gen.{self.gen_name}: SQL + iteration engine(s), leaves of 0-5 rows, "
+                "3-10 factory calls with every preferred-engine option combination, transfers, materializations, "
+                "chains, joins; every result processed by a real Processor and executed in its final engine")
+        return progs, False, rule
+
+
+class SimplePlan(Plan):
+    def __init__(self, gen_name, quick, thorough, rule, nontrivial):
+        self.gen_name, self.quick, self.thorough, self.rule, self.nontrivial_rule = gen_name, quick, thorough, rule, nontrivial
+
+    def programs(self, tier, seed):
+        n = _n(tier, self.quick, self.thorough, self.thorough // 4)
+        f = getattr(gen, self.gen_name)
+        progs = [f(seed * 1000003 + i).text() for i in range(n)]
+        return progs, False, f"{n} programs from gen.{self.gen_name}: {self.rule}"
+
+
 PLANS: dict[str, Plan] = {
     "C01": IterationPlan(eager=True),
     "C04": CommutePlan(),
@@ -141,4 +173,20 @@ PLANS: dict[str, Plan] = {
     "C02": SqlPlan(quick=500),
     "C08": SqlPlan(quick=400),
     "C11": SqlPlan(quick=500),
+    "C03": MultiPlan(quick=700),
+    "C07": MultiPlan(quick=600),
+    "C14": MultiPlan(quick=600),
+    "C15": MultiPlan(quick=600),
+    "C10": SimplePlan("prog_history", 800, 20000,
+                      "histories of attach/execute/process over trees sharing materialization nodes",
+                      "the relation touched by the event contains a materialization"),
+    "C16": SimplePlan("prog_diag", 800, 20000,
+                      "trees with doomed/identity leaves, trivially false predicates, zero-limit slices, both "
+                      "engines, diagnosed without and with a truthful executor",
+                      "the diagnosed tree has at least two node kinds"),
+    "C20": SimplePlan("prog_illformed", 1000, 25000,
+                      "a well-typed multi-engine program plus ONE injected ill-formed request (missing column, "
+                      "existing tag, chain column mismatch, engine mismatch, unsupported expression, bad slice) "
+                      "with random preferred-engine options, followed by a dump of every pool relation",
+                      "every injected request counts"),
 }
